@@ -152,6 +152,47 @@ def stored_epochs(zone_name, texts):
     return [r[0] for r in rows]
 
 
+def load_by_name(chk, z, objs):
+    """the zone NAME goes through `load_data` itself (which resolves it), on a six-instant hourly dataset around a
+    judged plain probe with no transition of the zone within two days: the stored instants must be the probe's
+    single valid instant plus whole hours.  Zones without any transition (Etc/GMT+5 ...) get no `cli_series`;
+    this is where their name resolution is bound to the specification's zone table."""
+    import io
+    import sqlite3
+    import spowtd.load as load_mod
+    cands = [o for o in objs if o["kind"] != "series" and o["judged"] and len(o["valid"]) == 1
+             and all(abs(t[0] - o["valid"][0]) > 172800 for t in z["tr"])]
+    for o in cands[:2]:
+        v, loc = o["valid"][0], o["local"]
+        inst = [(v + 3600 * i, loc + 3600 * i) for i in range(6)]
+        text = lambda rows: "datetime,value\n" + "".join("%s,%s\n" % (local_text(l), float(i % 3)) for i, (e, l) in enumerate(rows))
+        conn = sqlite3.connect(":memory:")
+        rp = {"kind": "tz_by_name", "zone": z["name"], "local": loc, "valid": o["valid"]}
+        chk.count("evaluations")
+        try:
+            try:
+                load_mod.load_data(connection=conn, precipitation_data_file=io.StringIO(text(inst[:-1])),
+                                   evapotranspiration_data_file=io.StringIO(text(inst)),
+                                   water_level_data_file=io.StringIO(text(inst[1:-2])), time_zone_name=z["name"])
+            except Exception as e:  # noqa
+                chk.violation("load of six hourly instants from %s declared in %s (no transition within two days) "
+                              "failed: %r" % (local_text(loc), z["name"], e), rp)
+                continue
+            for table, rows in (("rainfall_intensity_staging", inst[:-1]), ("evapotranspiration_staging", inst),
+                                ("water_level_staging", inst[1:-2])):
+                got = [r[0] for r in conn.execute("SELECT epoch FROM %s ORDER BY epoch" % table)]
+                if got != [e for e, _ in rows]:
+                    bad = [(local_text(l), e, g) for (e, l), g in zip(rows, got) if e != g][:3]
+                    chk.violation("%s loaded with --timezone %s: stored instants differ from the instants that render "
+                                  "to the texts in that zone (text, expected, stored): %s" % (table, z["name"], bad), rp)
+                    break
+            else:
+                chk.count("traces_validated_against_impl")
+                chk.count("zones_loaded_by_name")
+        finally:
+            conn.close()
+
+
 def cli_series(chk, obj, wd):
     """a tiny dataset whose rainfall / ET begin before a forward transition and whose
     water level begins after it, loaded through the CLI entry point"""
@@ -234,6 +275,8 @@ def run_batch(chk, zones, n_trans, n_plain, rng, label, n_series=2):
                 cli_series(chk, obj, wd)
     finally:
         rm(wd)
+    for z in zones:
+        load_by_name(chk, z, [o for o in res["emits"] if o["zone"] == z["name"]])
     # whole-file conversion: all probes of a zone in ONE call, in shuffled order
     by_zone = {}
     for obj in res["emits"]:
@@ -301,6 +344,12 @@ def tz_check(chk, tier):
 
 
 def replay_file(chk, rp):
+    if rp.get("kind") == "tz_by_name":
+        z = zone_table(rp["zone"])
+        load_by_name(chk, z, [{"kind": "plain", "judged": True, "valid": rp["valid"], "local": rp["local"]}])
+        chk.count("distinct_nontrivial", 2)
+        chk.sample(rp)
+        return
     ep = stored_epoch(rp["zone"], rp["text"])
     print("replay: stored", ep, "valid", rp["valid"])
     chk.count("evaluations"); chk.count("distinct_nontrivial", 2); chk.count("traces_validated_against_impl")
